@@ -156,15 +156,18 @@ func cmdSweep(args []string) {
 		if o.Status == "proved" {
 			np++
 			if *verbose {
-				fmt.Printf("  ok   %-80s %s %dms\n", o.Name, o.Solver, o.TimeMS)
+				fmt.Printf("  ok   %-80s %s %dms ~%s\n", o.Name, o.Solver, o.TimeMS, o.Stable)
 			}
 			continue
 		}
 		if sp := e.Specs.Funcs[o.Func]; sp != nil && excepted(sp, o) {
 			nex++
+			if *verbose {
+				fmt.Printf("  excepted %s  @%s ~%s\n", o.Name, o.Pos, o.Stable)
+			}
 			continue
 		}
-		fmt.Printf("  %-8s %s  @%s\n", o.Status, o.Name, o.Pos)
+		fmt.Printf("  %-8s %s  @%s ~%s\n", o.Status, o.Name, o.Pos, o.Stable)
 		if *showModel && o.Model != "" {
 			fmt.Println(indent(o.Model, "      "))
 		}
